@@ -18,7 +18,7 @@ DEPOPS = TERMINAL + ["set_result", "set_exception", "add_callback"]
 #  the eager response ends the body all the same)
 
 
-async def _plain(loop, cat, tried, mx, seq):
+async def _plain(loop, cat, tried, mx, seq, nfail=0):
     from repid import Connection, InMemoryMessageBroker, MessageCategory, Queue
     from repid.data._parameters import DelayProperties, Parameters, RetriesProperties
     broker = InMemoryMessageBroker()
@@ -31,10 +31,15 @@ async def _plain(loop, cat, tried, mx, seq):
         def mk(orig=orig, name=name):
             async def w(*a, **k):
                 calls.append(name)
+                if faults["left"] > 0 and name != "enqueue":
+                    # the broker is unreachable: the call fails before it has any effect
+                    faults["left"] -= 1
+                    raise ConnectionError("broker unreachable (injected)")
                 return await orig(*a, **k)
             w._repid_signal_emitter = getattr(orig, "_repid_signal_emitter", None)
             return w
         setattr(broker, name, mk())
+    faults = {"left": 0}
     await broker.queue_declare("q")
     key = broker.ROUTING_KEY_CLASS(id_="m1", topic="t", queue="q")
     kw = {}
@@ -53,15 +58,23 @@ async def _plain(loop, cat, tried, mx, seq):
     gen = q.get_messages(category=category)
     m = await gen.__anext__()
     ev = [{"e": "hdr", "cat": cat, "tried": tried, "max": mx, "resOn": False, "dep": False}]
+    faults["left"] = nfail          # the first nfail broker calls of the handle fail (transport), the later ones work
+    good = []
     for o in seq:
         before = len(calls)
+        bfail = False
         try:
             await getattr(m, o)()
             raised = False
+            good += calls[before:]
         except ValueError:
             raised = True
-        ev.append({"e": "op", "o": o, "raised": raised, "calls": calls[before:]})
-    ev.append({"e": "end", "ran": [], "cont": True, "calls": list(calls), "ro": m.read_only})
+        except ConnectionError:
+            raised = False
+            bfail = True
+        ev.append({"e": "op", "o": o, "raised": raised, "bfail": bfail, "calls": calls[before:]})
+    faults["left"] = 0
+    ev.append({"e": "end", "ran": [], "cont": True, "calls": good, "ro": m.read_only})
     await gen.aclose()
     return ev
 
@@ -136,11 +149,11 @@ async def _dep(loop, tried, mx, res_on, seq, swallow=False):
                         pass
                 else:
                     await getattr(m, o)()
-                ev.append({"e": "op", "o": o, "raised": False, "calls": calls[before:]})
+                ev.append({"e": "op", "o": o, "raised": False, "bfail": False, "calls": calls[before:]})
             except ValueError:
-                ev.append({"e": "op", "o": o, "raised": True, "calls": calls[before:]})
+                ev.append({"e": "op", "o": o, "raised": True, "bfail": False, "calls": calls[before:]})
             except BaseException:
-                ev.append({"e": "op", "o": o, "raised": False, "calls": calls[before:]})
+                ev.append({"e": "op", "o": o, "raised": False, "bfail": False, "calls": calls[before:]})
                 raise
         cont.append(True)
     act.__annotations__ = {"m": MessageDependency}
@@ -201,6 +214,11 @@ def run(tier: str, seed: int, replay=None) -> int:
                         if tier == "quick" and (L == 4 and rng.random() > 0.05 or L == 3 and tried > mx and rng.random() > 0.3):
                             continue
                         jobs.append(("plain", cat, tried, mx, list(seq)))
+                        if L <= 3 and (tier == "thorough" or L <= 2 or rng.random() < 0.25):
+                            # the broker fails the first one or two calls of the handle: a failed attempt uses nothing up
+                            jobs.append(("plain", cat, tried, mx, list(seq), 1))
+                            if L >= 2:
+                                jobs.append(("plain", cat, tried, mx, list(seq), 2))
         Ld = 3 if tier == "quick" else 4
         for L in range(1, Ld + 1):
             for seq in itertools.product(DEPOPS, repeat=L):
